@@ -31,7 +31,7 @@ class ListSub(list):
 TRANSLUCENT_KINDS = ["rgba", "hsla", "rgba_tuple", "rgba_list"]
 # alpha carried by spellings whose *detected* format is not rgba/hsla: rgb() with a fourth component (legacy comma form,
 # CSS Color 4 slash form, percentage alpha) and the informal list
-TRANSLUCENT_KINDS_X = ["rgb4", "rgbslash", "rgbslashpct", "informal4"]
+TRANSLUCENT_KINDS_X = ["rgb4", "rgbslash", "rgbslashpct", "informal4", "rgbapct", "rgba_tuple_pct"]
 
 # what make_readable must give back for each input kind
 OUT_KIND = {"hex6": "hex", "HEX6": "hex", "hex6n": "hex", "hex3": "hex", "hex3n": "hex",
@@ -42,7 +42,8 @@ OUT_KIND = {"hex6": "hex", "HEX6": "hex", "hex6n": "hex", "hex3": "hex", "hex3n"
             "keyword_pad": "hex", "hex6n_pad": "hex", "hex6_pad": "hex", "rgb_pad": "rgb", "hsl_pad": "hsl",
             "frac_tuple": "tuple", "float_tuple": "tuple", "str_tuple": "tuple", "pct_tuple": "tuple", "hsl_tuple": "tuple",
             # not covered by the documented format mapping (C06 does not judge these)
-            "informal3": None, "rgb4": None, "rgbslash": None, "rgbslashpct": None, "informal4": None}
+            "informal3": None, "rgb4": None, "rgbslash": None, "rgbslashpct": None, "informal4": None,
+            "rgbapct": "hex", "rgba_tuple_pct": "hex"}
 
 _KW_BY_RGB = None
 
@@ -202,6 +203,10 @@ def spell_translucent(fg, alpha_text, kind):
         return f"rgb({r} {g} {b} / {_dec(Fraction(alpha_text) * 100, 6)}%)"
     if kind == "informal4":
         return f"{r}, {g}, {b}, {alpha_text}"
+    if kind == "rgbapct":
+        return f"rgba({r}, {g}, {b}, {_dec(Fraction(alpha_text) * 100, 6)}%)"
+    if kind == "rgba_tuple_pct":
+        return (r, g, b, f"{_dec(Fraction(alpha_text) * 100, 6)}%")
     raise KeyError(kind)
 
 
@@ -219,7 +224,7 @@ def jsonable(x):
 
 
 def from_json(x, kind):
-    if kind in ("tuple", "rgba_tuple", "frac_tuple", "float_tuple", "str_tuple", "pct_tuple", "hsl_tuple") and isinstance(x, list):
+    if kind in ("tuple", "rgba_tuple", "rgba_tuple_pct", "frac_tuple", "float_tuple", "str_tuple", "pct_tuple", "hsl_tuple") and isinstance(x, list):
         return tuple(x)
     if kind == "ntuple":
         return RGBTuple(*x)
